@@ -527,19 +527,17 @@ def clone_step(case, reg, toks, t, fails):
 
 
 def consume_step(case, reg, toks, t, fails):
+    """drain / into_iter: `take` is a number of `next` calls, `tK` (= `nth(K)`) or `z` (= `last()`);
+    output `[[items],len,(debug,)size_hint(,count)]` resp. `[[items],consumed]`."""
     op = toks[1]
     pre = case.state[reg]["ents"]
     isset = reg.startswith("s")
-    if op == "drain":
-        take = int(toks[2])
-    else:
-        take = int(toks[2]) if isset else int(toks[3])
+    tk = toks[2] if (op == "drain" or isset) else toks[3]
+    end = toks[-1]
     if t["outcome"] != "ok" or not t["ret"]:
         return True
     parts = split_top(t["ret"][1:-1])
     items = [x for x in split_top(parts[0][1:-1]) if x]
-    remaining = int(parts[1])
-    n = min(take, len(pre))
     kind = "pairs" if (op == "drain" or isset) else toks[2]
 
     def show(e):
@@ -549,20 +547,39 @@ def consume_step(case, reg, toks, t, fails):
             return "V%d.%d" % (e[2], e[3])
         return "K%d.%d:V%d.%d" % e
     allshown = [show(e) for e in pre]
-    if len(items) != n or len(set(items)) != len(items) or not set(items) <= set(allshown):
-        fails.append("%s %s yielded %s for %d requested; it held %s" % (reg, op, items, take, allshown))
-    elif len(parts) >= 3 and parts[2] != '"nodebug"' and not (kind != "keys" and not isset and any(e[3] is None for e in pre)):
-        rest = [e for e in pre if show(e) not in items]
-        lk = "keys" if (isset or kind == "keys") else kind
-        cands = {esc_str(dbg_list(rest, lk, False)), esc_str(dbg_list(list(reversed(rest)), lk, False))}
-        if parts[2] not in cands:
-            fails.append("%s %s: Debug after %d items prints %s, the entries not yet yielded render as %s"
-                         % (reg, op, n, parts[2], esc_str(dbg_list(rest, lk, False))))
-    if remaining != len(pre) - n:
-        fails.append("%s %s: len() after %d items is %d, %d remain" % (reg, op, n, remaining, len(pre) - n))
+    order = allshown if op == "drain" else list(reversed(allshown))     # documented yield order is not
+    # part of the property: `order` is only used for nth/last, which are defined relative to next
+    if tk == "z":
+        want_n, gone = (1 if pre else 0), len(pre)
+    elif tk.startswith("t"):
+        k = int(tk[1:])
+        want_n, gone = (1 if k < len(pre) else 0), min(k + 1, len(pre))
+    else:
+        want_n = gone = min(int(tk), len(pre))
+    if len(items) != want_n or len(set(items)) != len(items) or not set(items) <= set(allshown):
+        fails.append("%s %s %s yielded %s; it held %s" % (reg, op, tk, items, allshown))
+        return True
     g = t["snaps"].get(reg)
     if g is not None and (g["len"] != 0 or g["ents"]):
         fails.append("%s is not empty after %s: %s" % (reg, op, g["ents"]))
+    if tk == "z" or parts[1] == "consumed":
+        return True
+    remaining = int(parts[1])
+    if remaining != len(pre) - gone:
+        fails.append("%s %s: len() after %s is %d, %d remain" % (reg, op, tk, remaining, len(pre) - gone))
+    has_dbg = not isset
+    hint_i = 3 if has_dbg else 2
+    if len(parts) > hint_i and parts[hint_i] != "%d..%d" % (len(pre) - gone, len(pre) - gone):
+        fails.append("%s %s: size_hint after %s is %s, %d remain" % (reg, op, tk, parts[hint_i], len(pre) - gone))
+    if end == "count" and (len(parts) <= hint_i + 1 or parts[hint_i + 1] != str(len(pre) - gone)):
+        fails.append("%s %s: count() after %s is %s, %d remain" % (reg, op, tk, parts[hint_i + 1:], len(pre) - gone))
+    if has_dbg and tk.isdigit() and parts[2] != '"nodebug"' and not (kind != "keys" and any(e[3] is None for e in pre)):
+        rest = [e for e in pre if show(e) not in items]
+        lk = "keys" if kind == "keys" else kind
+        cands = {esc_str(dbg_list(rest, lk, False)), esc_str(dbg_list(list(reversed(rest)), lk, False))}
+        if parts[2] not in cands:
+            fails.append("%s %s: Debug after %d items prints %s, the entries not yet yielded render as %s"
+                         % (reg, op, gone, parts[2], esc_str(dbg_list(rest, lk, False))))
     return True
 
 
